@@ -59,7 +59,7 @@ func (p *Party) Calculate() error {
 
 func (p *Party) normalizers() tax.Normalizers {
 	if r := p.RegimeDef(); r != nil {
-		return tax.Normalizers{r.Normalizer}
+		return tax.Normalizers{}.Append(r.Normalizer) // regimes may have no normalizer
 	}
 	return nil
 }
